@@ -4,6 +4,7 @@ import (
 	"crypto/sha256"
 	"encoding/hex"
 	"fmt"
+	"github.com/thushan/olla/verifharness/hx"
 	"io"
 	"net"
 	"net/http"
@@ -50,7 +51,7 @@ type Rec struct {
 
 // NewRec starts a recording backend.
 func NewRec(id string) (*Rec, error) {
-	ln, err := net.Listen("tcp", "127.0.0.1:0")
+	ln, err := net.Listen("tcp", fmt.Sprintf("127.0.0.1:%d", hx.FreePort()))
 	if err != nil {
 		return nil, err
 	}
@@ -61,7 +62,7 @@ func NewRec(id string) (*Rec, error) {
 }
 
 func (b *Rec) URL() string { return fmt.Sprintf("http://127.0.0.1:%d", b.Port) }
-func (b *Rec) Close()      { b.srv.Close() }
+func (b *Rec) Close()      { b.srv.Close(); hx.ReleasePort(b.Port) }
 
 // Seen returns the recorded requests.
 func (b *Rec) Seen() []*Seen {
